@@ -1,7 +1,7 @@
 SPECIFICATION Spec
 CONSTANTS MaxEdit = 2  MaxInv = 3  MaxKill = 0  MaxFail = 0  GenDepth = 0
-CONSTANT Flags = {"plain"}
-CONSTANT Weak = {"NoPruneOnDigestChange"}
+CONSTANT Flags = {"plain", "bo"}
+CONSTANT Weak = {"BoSkipStoresState"}
 VIEW view
 CONSTRAINT CexPrint
 CHECK_DEADLOCK FALSE
